@@ -231,3 +231,7 @@ def run(ctx):
     import runner
     cov, f, k = ({}, [], []) if _chttp.replay_only_chttp(ctx) else runner.correspondence("C09", ctx, __import__("props.c09", fromlist=["x"]))
     return _chttp.second(ctx, "C09", "C09CH", cov, f, k)
+# reader calculus (ops with first token RD; checklib/models/readers.py): split independence of the streaming digesters
+import composite as _composite  # noqa: F401  (puts checklib/models on sys.path)
+import readers as _readers
+_readers.install(globals())
